@@ -17,6 +17,8 @@ pub enum V {
     Arr(Vec<V>),
     /// a value together with the path at which it sits (path mode, inside `path(..)`)
     At(Box<V>, Vec<i64>),
+    /// an object, kept as its compact JSON text (only ever compared and printed)
+    Raw(String),
 }
 
 impl V {
@@ -39,6 +41,7 @@ impl V {
             V::Str(_) => 4,
             V::Arr(_) => 5,
             V::At(v, _) => v.rank(),
+            V::Raw(_) => 6,
         }
     }
     pub fn cmp(&self, o: &V) -> std::cmp::Ordering {
@@ -67,6 +70,14 @@ impl V {
             V::Str(s) => format!("{s:?}"),
             V::Arr(a) => format!("[{}]", a.iter().map(|v| v.json()).collect::<Vec<_>>().join(",")),
             V::At(v, _) => v.json(),
+            V::Raw(s) => s.clone(),
+        }
+    }
+    /// what `tostring` / string interpolation makes of the value
+    pub fn tostring(&self) -> String {
+        match self.plain() {
+            V::Str(s) => s.clone(),
+            v => v.json(),
         }
     }
     fn add(&self, o: &V) -> Result<V, V> {
@@ -175,6 +186,16 @@ pub enum T {
     Pass(i64),
     /// `.[(Z)]` inside `path(..)`: an effectful, multi-valued index in path mode
     IdxZ(Box<T>),
+    /// `"x\(E)y"`: string interpolation of a stream
+    Interp(Box<T>),
+    /// `{a: (E)}`: object construction over a stream of values
+    ObjVal(Box<T>),
+    /// `((E) + n)`
+    AddR(Box<T>, i64),
+    /// `(n + (E))`
+    AddL(i64, Box<T>),
+    /// `((E) == n)`
+    EqLit(Box<T>, i64),
 }
 
 pub const ARR: [i64; 6] = [10, 20, 30, 40, 50, 60];
@@ -233,6 +254,11 @@ impl T {
             T::Iter => ".[]".into(),
             T::Pass(i) => format!("probe({i})"),
             T::IdxZ(z) => format!(".[({})]", b(z)),
+            T::Interp(e) => format!("\"x\\({})y\"", b(e)),
+            T::ObjVal(e) => format!("{{a: ({})}}", b(e)),
+            T::AddR(e, n) => format!("(({}) + {n})", b(e)),
+            T::AddL(n, e) => format!("({n} + ({}))", b(e)),
+            T::EqLit(e, n) => format!("(({}) == {n})", b(e)),
         }
     }
     /// effects sit in index / bound positions of a path (compared as sets, see c03.rs)
@@ -257,7 +283,8 @@ impl T {
             }
             T::TryQ(a) | T::Label(_, a) | T::First(a) | T::Limit(_, a) | T::Skip(_, a) | T::Nth(_, a)
             | T::IsEmpty(a) | T::Any(a, _) | T::All(a, _) | T::Arr(a) | T::Rec(a) | T::Repeat(a)
-            | T::Recurse(a) | T::While(_, a) | T::Until(_, a) | T::SliceTo(_, a) | T::IndexAt(a) | T::PathOf(a) | T::IdxZ(a) => f(a),
+            | T::Recurse(a) | T::While(_, a) | T::Until(_, a) | T::SliceTo(_, a) | T::IndexAt(a) | T::PathOf(a) | T::IdxZ(a) | T::Interp(a) | T::ObjVal(a)
+            | T::AddR(a, _) | T::AddL(_, a) | T::EqLit(a, _) => f(a),
             T::Foreach(s, _, _, u, e) => {
                 f(s);
                 f(u);
@@ -278,6 +305,12 @@ impl T {
         s.retain(|c| !c.is_ascii_digit() && c != '-');
         s
     }
+}
+
+thread_local! {
+    /// set when an evaluation met a construct whose meaning the model does not describe; its trace
+    /// then decides nothing
+    pub static UNMODELLED: std::cell::Cell<bool> = const { std::cell::Cell::new(false) };
 }
 
 #[derive(Clone, Debug, PartialEq)]
@@ -787,6 +820,11 @@ fn eval_(t: &T, env: &Env) -> Stream {
                 let k = if i < 0 { len + i } else { i };
                 once(Step::Out(if (0..len).contains(&k) { V::Int(ARR[k as usize]) } else { V::Null }))
             }
+            V::Arr(_) => {
+                // an array as index asks for the positions of a sub-array: not modelled
+                UNMODELLED.with(|u| u.set(true));
+                once(Step::Err(X::Error(V::Str("cannot index array".into()))))
+            }
             _ => once(Step::Err(X::Error(V::Str("cannot index array".into())))),
         }),
         T::PathOf(e) => {
@@ -838,6 +876,26 @@ fn eval_(t: &T, env: &Env) -> Stream {
             _ => once(Step::Err(X::Error(V::Str("not in path mode".into())))),
         },
         T::Pass(i) => steps(vec![Step::E(Ev::P(i.to_string())), Step::Out(env.dot.clone())]),
+        T::Interp(e) => flat(eval(e, env), |v| once(Step::Out(V::Str(format!("x{}y", v.tostring()))))),
+        T::ObjVal(e) => flat(eval(e, env), |v| once(Step::Out(V::Raw(format!("{{\"a\":{}}}", v.json()))))),
+        T::AddR(e, n) => {
+            let n = *n;
+            flat(eval(e, env), move |v| match v.add(&V::Int(n)) {
+                Ok(v) => once(Step::Out(v)),
+                Err(e) => once(Step::Err(X::Error(e))),
+            })
+        }
+        T::AddL(n, e) => {
+            let n = *n;
+            flat(eval(e, env), move |v| match V::Int(n).add(&v) {
+                Ok(v) => once(Step::Out(v)),
+                Err(e) => once(Step::Err(X::Error(e))),
+            })
+        }
+        T::EqLit(e, n) => {
+            let n = *n;
+            flat(eval(e, env), move |v| once(Step::Out(if v.cmp(&V::Int(n)) == std::cmp::Ordering::Equal { V::True } else { V::False })))
+        }
         T::IdxZ(z) => {
             // the index expression runs in value mode on the value at the current path
             let here = env.dot.clone();
@@ -857,7 +915,12 @@ fn eval_(t: &T, env: &Env) -> Stream {
                     p2.push(*i);
                     once(Step::Out(V::At(Box::new(e), p2)))
                 }
-                _ => once(Step::Err(X::Error(V::Str("cannot index".into())))),
+                _ => {
+                    // an index that is no integer: the tree yields null for `null | .[x]`, positions
+                    // for an array index, ... - none of which this model describes
+                    UNMODELLED.with(|u| u.set(true));
+                    once(Step::Err(X::Error(V::Str("cannot index".into()))))
+                }
             })
         }
         T::Range(a, b, by) => {
